@@ -25,6 +25,9 @@ def _fixed_streams():
     return [
         # long tag (two-octet tag number), two items back to back
         ('long-tag', 'ber', '(tag i c 1000 int)', '9f876801059f87680107', 2),
+        # the same long tag in primitive and in constructed (segmented) form within one stream, either order
+        ('long-tag-both-forms', 'ber', '(tag i c 40 (str 4))', '9f28026162' + 'bf28080402636404026566' + '9f280167', 3),
+        ('long-tag-both-forms-cons-first', 'ber', '(tag i p 1000 (str 4))', 'ff876880040163040164' + '0000' + 'df87680165', 2),
         # long-form length octets (valid BER), followed by a NULL — schemaless
         ('long-length', 'ber', None, '04810361626305000101ff', 3),
         # indefinite SEQUENCE OF closed by end-of-octets, then an INTEGER
@@ -249,6 +252,22 @@ def whole_reference(rep, name, cdc, ts, t, spec, data, n_items, must_be_clean=Tr
         if not ok:
             rep.fail('whole-input-' + (w.tokens[-1].split('@')[0].replace(':', '-') if w.tokens else 'nothing'),
                      '%s: the complete input (BytesIO) -> %s, expected %d objects and stop' % (name, w.tokens, n_items),
+                     {'kind': 'whole', 'stream': name, 'codec': cdc, 'type': ts, 'bytes': data.hex()})
+            return None
+    if must_be_clean:
+        # the objects are those one-shot decoding yields from the complete bytes (each call a decoder of its own, fed the
+        # remainder of the previous one): what one decoder object met earlier in the stream does not colour later items
+        one_by_one, rest = [], data
+        try:
+            while rest and len(one_by_one) <= n_items:
+                obj, rest = dec.decode(rest, asn1Spec=spec)
+                one_by_one.append(dump(t, obj))
+        except Exception as e:  # noqa
+            one_by_one.append('err:' + err_class(e))
+        if one_by_one != w.values:
+            k = [i for i in range(min(len(one_by_one), len(w.values))) if one_by_one[i] != w.values[i]]
+            rep.fail('stream-items-differ-from-one-shot', '%s: item %s of the stream is %s, one-shot decoding of the same octets gives %s' % (
+                name, k[:1], [w.values[i][:80] for i in k[:1]], [one_by_one[i][:80] for i in k[:1]]),
                      {'kind': 'whole', 'stream': name, 'codec': cdc, 'type': ts, 'bytes': data.hex()})
             return None
     # K1 against the model
